@@ -2,7 +2,7 @@
 use std::time::Instant;
 
 use embedded_graphics_core::draw_target::DrawTarget;
-use embedded_graphics_core::geometry::{OriginDimensions, Size};
+use embedded_graphics_core::geometry::Size;
 use embedded_graphics_core::pixelcolor::{Rgb565, Rgb666, Rgb888};
 use embedded_graphics_core::{Drawable, Pixel};
 use mipidsi::TestImage;
@@ -31,6 +31,9 @@ pub const ENTRY: Entry = Entry {
 };
 
 pub struct ClipFb<C> {
+    /// top-left corner of the bounding box (not every draw target starts at the origin)
+    pub ox: i32,
+    pub oy: i32,
     pub w: u32,
     pub h: u32,
     pub px: Vec<u32>,
@@ -39,12 +42,12 @@ pub struct ClipFb<C> {
 }
 impl<C: Col> ClipFb<C> {
     pub fn new(w: u32, h: u32) -> Self {
-        ClipFb { w, h, px: vec![UNWRITTEN; (w as usize) * (h as usize)], oob: 0, _c: std::marker::PhantomData }
+        ClipFb { ox: 0, oy: 0, w, h, px: vec![UNWRITTEN; (w as usize) * (h as usize)], oob: 0, _c: std::marker::PhantomData }
     }
 }
-impl<C: Col> OriginDimensions for ClipFb<C> {
-    fn size(&self) -> Size {
-        Size::new(self.w, self.h)
+impl<C: Col> embedded_graphics_core::geometry::Dimensions for ClipFb<C> {
+    fn bounding_box(&self) -> embedded_graphics_core::primitives::Rectangle {
+        embedded_graphics_core::primitives::Rectangle::new(embedded_graphics_core::geometry::Point::new(self.ox, self.oy), Size::new(self.w, self.h))
     }
 }
 impl<C: Col> DrawTarget for ClipFb<C> {
@@ -52,8 +55,9 @@ impl<C: Col> DrawTarget for ClipFb<C> {
     type Error = core::convert::Infallible;
     fn draw_iter<I: IntoIterator<Item = Pixel<C>>>(&mut self, pixels: I) -> Result<(), Self::Error> {
         for Pixel(p, c) in pixels {
-            if p.x >= 0 && p.y >= 0 && (p.x as u32) < self.w && (p.y as u32) < self.h {
-                self.px[p.y as usize * self.w as usize + p.x as usize] = c.packed();
+            let (x, y) = (p.x as i64 - self.ox as i64, p.y as i64 - self.oy as i64);
+            if x >= 0 && y >= 0 && x < self.w as i64 && y < self.h as i64 {
+                self.px[y as usize * self.w as usize + x as usize] = c.packed();
             } else {
                 self.oob += 1;
             }
@@ -170,8 +174,13 @@ pub fn diagnose(w: u32, h: u32, px: &[u32], pal: Pal) -> Option<(String, String)
 }
 
 fn draw_on_target<C: Col>(w: u32, h: u32) -> Result<ClipFb<C>, String> {
-    let r = std::panic::catch_unwind(|| {
+    draw_on_target_at::<C>(0, 0, w, h)
+}
+fn draw_on_target_at<C: Col>(ox: i32, oy: i32, w: u32, h: u32) -> Result<ClipFb<C>, String> {
+    let r = std::panic::catch_unwind(move || {
         let mut fb = ClipFb::<C>::new(w, h);
+        fb.ox = ox;
+        fb.oy = oy;
         TestImage::<C>::new().draw(&mut fb).unwrap();
         fb
     });
@@ -188,6 +197,16 @@ fn check_target<C: Col>(ctx: &Ctx, acc: &mut Acc, w: u32, h: u32, cname: &str) {
             hsh.u32(h);
             hsh.u64(fb.oob);
             acc.outcome(hsh.finish());
+            // the same target moved away from the origin must show the same picture
+            if (w + h) % 7 == 0 || (w == 32 && h == 32) || (w == 40 && h == 33) {
+                for (ox, oy) in [(5i32, 9i32), (-40, 3), (1000, -2000)] {
+                    match draw_on_target_at::<C>(ox, oy, w, h) {
+                        Ok(f2) if f2.px == fb.px => acc.count("moved_targets", 1),
+                        Ok(_) => acc.violation(Violation { prop: ctx.prop.clone(), sig: "test-image/depends-on-origin".into(), msg: format!("{w}x{h} {cname}: a target whose bounding box starts at ({ox},{oy}) shows a different picture"), case: json!({"kind": "c19", "variant": ctx.variant, "w": w, "h": h, "colour": cname, "origin": [ox, oy]}) }),
+                        Err(m) => acc.violation(Violation { prop: ctx.prop.clone(), sig: "test-image/panic".into(), msg: format!("{w}x{h} at ({ox},{oy}) {cname}: {m}"), case: json!({"kind": "c19", "variant": ctx.variant, "w": w, "h": h, "colour": cname, "origin": [ox, oy]}) }),
+                    }
+                }
+            }
             if w >= 32 && h >= 32 {
                 acc.nontrivial += 1;
                 if let Some((sig, msg)) = diagnose(w, h, &fb.px, palette::<C>()) {
@@ -201,13 +220,34 @@ fn check_target<C: Col>(ctx: &Ctx, acc: &mut Acc, w: u32, h: u32, cname: &str) {
 }
 
 fn check_display(ctx: &Ctx, acc: &mut Acc, cfg: &Cfg) {
+    check_display_after(ctx, acc, cfg, &[]);
+    // state carried from earlier calls: clear, change the orientation, then draw the image
+    for o2 in [(cfg.orient + 2) % 8, cfg.orient ^ 4, (cfg.orient + 1) % 8] {
+        check_display_after(ctx, acc, cfg, &[Op::Clear { c: 0x0841 }, Op::SetOrientation(o2)]);
+    }
+}
+
+fn check_display_after(ctx: &Ctx, acc: &mut Acc, cfg: &Cfg, prefix: &[Op]) {
     acc.evaluations += 1;
     acc.nontrivial += 1;
     let mut rig = Rig::new(cfg);
-    let mk = |k: &str, m: String| Violation { prop: ctx.prop.clone(), sig: format!("test-image/display/{k}"), msg: m, case: json!({"variant": ctx.variant, "cfg": cfg, "faults": [], "history": ["TestImage"], "checks": "all"}) };
+    let mut hist: Vec<Op> = prefix.to_vec();
+    hist.push(Op::TestImage);
+    let mk = |k: &str, m: String| Violation { prop: ctx.prop.clone(), sig: format!("test-image/display/{k}"), msg: m, case: json!({"variant": ctx.variant, "cfg": cfg, "faults": [], "history": hist, "checks": "all"}) };
     if !rig.init.is_ok() {
         acc.violation(mk("init", format!("{:?}", rig.init)));
         return;
+    }
+    let mut orient = cfg.orient;
+    for p in prefix {
+        let o = rig.apply(p);
+        if !o.is_ok() {
+            acc.violation(mk("prefix", format!("{p:?}: {o:?}")));
+            return;
+        }
+        if let Op::SetOrientation(o2) = p {
+            orient = *o2;
+        }
     }
     let out = rig.apply(&Op::TestImage);
     if !out.is_ok() {
@@ -218,8 +258,11 @@ fn check_display(ctx: &Ctx, acc: &mut Acc, cfg: &Cfg) {
         acc.violation(mk("protocol", format!("{:?}", rig.ctl.viols[0])));
         return;
     }
-    let geo = cfg.geo();
+    let geo = crate::spec::Geo { orient, ..cfg.geo() };
     let (lw, lh) = geo.lsize();
+    if lw < 32 || lh < 32 {
+        return;
+    }
     let mut px = Vec::with_capacity((lw * lh) as usize);
     for y in 0..lh {
         for x in 0..lw {
@@ -233,7 +276,7 @@ fn check_display(ctx: &Ctx, acc: &mut Acc, cfg: &Cfg) {
         (palette::<Rgb565>(), draw_on_target::<Rgb565>(lw, lh).map(|f| f.px))
     };
     if let Some((sig, msg)) = diagnose(lw, lh, &px, pal) {
-        acc.violation(Violation { prop: ctx.prop.clone(), sig: format!("{sig}/display"), msg, case: json!({"variant": ctx.variant, "cfg": cfg, "faults": [], "history": ["TestImage"], "checks": "all"}) });
+        acc.violation(Violation { prop: ctx.prop.clone(), sig: format!("{sig}/display"), msg, case: json!({"variant": ctx.variant, "cfg": cfg, "faults": [], "history": hist, "checks": "all"}) });
         return;
     }
     if reference.as_ref().map(|r| *r != px).unwrap_or(true) {
@@ -273,10 +316,13 @@ fn run(ctx: &Ctx) -> Part {
     }
     cfgs.push(Cfg::tiny(40, 35, true, Transport::RecSerial, (36, 33, 2, 1), 5));
     cfgs.push(Cfg::tiny(40, 35, false, Transport::Par8, (34, 32, 3, 3), 3));
+    cfgs.push(Cfg::tiny(40, 35, true, Transport::Par8, (33, 34, 4, 1), 6));
+    cfgs.push(Cfg::tiny(40, 35, true, Transport::Spi { len: 8 }, (40, 32, 0, 2), 1));
+    cfgs.push(Cfg::tiny(40, 35, false, Transport::Par16, (32, 32, 5, 2), 7));
     cfgs.push(Cfg::tiny(40, 35, false, Transport::Spi { len: 9 }, (40, 35, 0, 0), 6));
     for (m, win) in [(0u8, None), (2, None), (12, Some((135u16, 240u16, 52u16, 40u16))), (11, Some((128, 128, 2, 1)))] {
         for o in [0u8, 1, 6] {
-            cfgs.push(Cfg { model: ModelId::Builtin(m), tr: Transport::RecSerial, win, orient: o, bgr: false, invert: false, refresh: 0, rst: false });
+            cfgs.push(Cfg { model: ModelId::Builtin(m), tr: Transport::RecSerial, win, orient: o, bgr: false, invert: false, refresh: 0, rst: false, flags: 0 });
         }
     }
     let b = cfgs
